@@ -471,12 +471,17 @@ class Parser:
                     self.parse_expression(pstate, _PREC_SHIFT))
             did_something = True
         elif next_tag in self._COMP_TABLE and _PREC_COMPARISON > min_precedence:
-            pstate.advance()
-            from pymbolic.primitives import Comparison
-            left_exp = Comparison(
-                    left_exp,
-                    self._COMP_TABLE[next_tag],
-                    self.parse_expression(pstate, _PREC_COMPARISON))
+            from pymbolic.primitives import Comparison, LogicalAnd
+            # As in Python, a < b <= c means (a < b) and (b <= c).
+            links = []
+            while (not pstate.is_at_end()
+                    and pstate.next_tag() in self._COMP_TABLE):
+                comp = self._COMP_TABLE[pstate.next_tag()]
+                pstate.advance()
+                right_exp = self.parse_expression(pstate, _PREC_COMPARISON)
+                links.append(Comparison(left_exp, comp, right_exp))
+                left_exp = right_exp
+            left_exp = links[0] if len(links) == 1 else LogicalAnd(tuple(links))
             did_something = True
         elif next_tag is _colon and _PREC_SLICE >= min_precedence:
             pstate.advance()
